@@ -16,6 +16,7 @@ EXPLANATION = (
     "write of the variable exists.  Parent lookup at creation is by current_action() only; start_task and "
     "the context-less branch of log_message build a fresh root and never touch the variable."
     "  The repo's generator wrapper resumes a decorated generator only inside that generator's own context copy (C15.inside), so an action a generator is suspended in never becomes current in its driver."
+    '  Action.context() may not hand out one context-manager object kept on the action: the reset token is per-entry state (a fresh object per call is not modelled: exit 2).'
 )
 RULE = ("obligation = one set/reset pair, one use of the variable, or one parent-lookup site; non-trivial = "
         "at least one CFG path from set to exit enumerated by reachability")
